@@ -46,6 +46,7 @@ type Cfg struct {
 	Busy      bool   `json:"busy"`      // end the session while the senders are still at work
 	Seed      int    `json:"seed"`
 	Sessions  int    `json:"sessions,omitempty"` // > 1: several clients at once (C17)
+	Stall     string `json:"stall,omitempty"`    // the terminating server's consumer is stuck in a handler of this kind
 }
 
 type Case struct {
@@ -130,10 +131,22 @@ func textLen(d lime.Document) int {
 
 // mkMux registers handlers that log every delivery (and check the content arrived intact).
 func mkMux(l *logger, delay time.Duration) *lime.EnvelopeMux {
+	return mkMuxStall(l, delay, "", nil, nil)
+}
+
+// mkMuxStall: the handler of kind stall reports that it was entered and does not return before release is closed.
+func mkMuxStall(l *logger, delay time.Duration, stall string, entered chan<- struct{}, release <-chan struct{}) *lime.EnvelopeMux {
 	m := &lime.EnvelopeMux{}
 	rec := func(kind, id string, md map[string]string, n int) {
 		if delay > 0 {
 			time.Sleep(delay)
+		}
+		if stall != "" && kind == stall {
+			select {
+			case entered <- struct{}{}:
+			default:
+			}
+			<-release
 		}
 		g, i := splitID(id)
 		res := "intact"
@@ -215,7 +228,9 @@ func Run(c Case) int {
 	srvFinished := make(chan struct{}, 4)
 	scfg.Established = func(sid string, sc *lime.ServerChannel) { established <- sc }
 	scfg.Finished = func(sid string) { srvFinished <- struct{}{} }
-	smux := mkMux(l, delay)
+	stallEntered := make(chan struct{}, 1)
+	stallRelease := make(chan struct{})
+	smux := mkMuxStall(l, delay, cfg.Stall, stallEntered, stallRelease)
 	var bl lime.BoundListener
 	var dial func(ctx context.Context) (lime.Transport, error)
 	var srv *lime.Server
@@ -324,6 +339,9 @@ func Run(c Case) int {
 			default:
 			}
 			kind := kinds[srng.Intn(4)]
+			if cfg.Stall != "" && sd.name == "C" {
+				kind = cfg.Stall // everything the server receives piles up behind its stuck consumer
+			}
 			body := payload(cfg.Payload, srng)
 			l.log(Event{K: "sendcall", G: g, I: i, Kind: kind})
 			sctx, scancel := context.WithTimeout(ctx, 10*time.Second)
@@ -350,7 +368,14 @@ func Run(c Case) int {
 	}
 	sendersDone := make(chan struct{})
 	go func() { wg.Wait(); close(sendersDone) }()
-	if cfg.Busy {
+	if cfg.Stall != "" {
+		// the server's consumer is inside its handler and the receiver behind it has filled the stream
+		select {
+		case <-stallEntered:
+		case <-time.After(3 * time.Second):
+		}
+		time.Sleep(150 * time.Millisecond)
+	} else if cfg.Busy {
 		time.Sleep(time.Duration(rng.Intn(1500)) * time.Microsecond)
 	} else {
 		select {
@@ -384,17 +409,27 @@ func Run(c Case) int {
 	}
 	l.log(Event{K: "term", G: ini, Kind: how, Res: cfg.Initiator})
 	tctx, tcancel := context.WithTimeout(context.Background(), 8*time.Second)
-	switch cfg.Initiator {
-	case "cfinish", "cclose":
-		_, _ = cc.FinishSession(tctx)
-	case "sfinish":
-		_ = sc.FinishSession(tctx)
-	case "sfail":
-		_ = sc.FailSession(tctx, &lime.Reason{Code: 9, Description: "ended by the test"})
-	case "sclose":
-		_ = srv.Close()
+	termDone := make(chan struct{})
+	go func() {
+		defer close(termDone)
+		switch cfg.Initiator {
+		case "cfinish", "cclose":
+			_, _ = cc.FinishSession(tctx)
+		case "sfinish":
+			_ = sc.FinishSession(tctx)
+		case "sfail":
+			_ = sc.FailSession(tctx, &lime.Reason{Code: 9, Description: "ended by the test"})
+		case "sclose":
+			_ = srv.Close()
+		}
+	}()
+	select {
+	case <-termDone:
+	case <-time.After(14 * time.Second): // its context ended 6 s ago
+		l.log(Event{K: "stuck", G: "term"})
 	}
 	tcancel()
+	close(stallRelease) // the slow consumer gets on with it
 	close(stopSending)
 	select {
 	case <-sendersDone:
